@@ -53,7 +53,7 @@ def items(tier, seed):
         for n in L:
             out.append(("magic", fmt, n, tier))
     # Mach-O with exactly one load command of <= 16 bytes declared: the command type and size stay symbolic
-    for csz in ((0, 8) if tier == "quick" else (0, 8, 24)):
+    for csz in (0, 8):  # cmdsize 24 exhausts the 4 GB address-space cap of the workers (symbolic body of the command): outside the bounds
         out.append(("focus", "macho64", 56, "one-load-command", csz, tier))
         if tier != "quick":
             out.append(("focus", "macho32", 52, "one-load-command", csz, tier))
@@ -146,7 +146,15 @@ def run_item(item):
             ctor, errs = None, ()
             if item[0] == "focus":
                 ctor, errs = _macho.MachO, (_macho.StructureError, _macho.MachOError)
-            paths = E.explore(make_fn(n, magic, fixed if item[0] == "focus" else None, ctor, errs), max_paths=3000 if tier == "quick" else 20000, deadline=time.time() + (50 if tier == "quick" else 600))
+            try:
+                paths = E.explore(make_fn(n, magic, fixed if item[0] == "focus" else None, ctor, errs), max_paths=3000 if tier == "quick" else 20000, deadline=time.time() + (50 if tier == "quick" else 600))
+            except MemoryError:
+                # the exploration itself (engine bookkeeping) ran into the address-space cap: nothing is concluded for this item
+                res["explorations"] += 1
+                res["incomplete_explorations"] += 1
+                res["inconclusive"] = res.get("inconclusive", 0) + 1
+                res.setdefault("notes", []).append("exploration of %r stopped by the 4 GB address-space cap: inconclusive" % (item,))
+                return res
         finally:
             _macho.CMD_TABLE = _saved_table
     res["explorations"] += 1
